@@ -2,6 +2,7 @@
 mod conn;
 mod cdial;
 mod dialplan;
+mod notify;
 
 fn main() {
     let a = vcommon::Args::parse();
@@ -9,6 +10,7 @@ fn main() {
         "conn" => conn::main(&a),
         "dialplan" => dialplan::main(&a),
         "cdial" => cdial::main(&a),
+        "notify" => notify::main(&a),
         m => {
             eprintln!("unknown mode {m}");
             std::process::exit(2)
